@@ -313,10 +313,10 @@ Proof.
   destruct (apply_prior (a_val C) p) as [C1|] eqn:E; [|discriminate].
   cbn [rbind]. unfold is_sparse, a_toarray. cbn [a_kind a_val].
   destruct (prior_kind (a_kind C) p) as [| |fam f] eqn:K1; cbn [rbind].
-  - destruct eq; cbn [negb]; destruct (prinz _) as [[T e]| |]; cbn [rbind]; try discriminate;
+  - destruct eq; cbn [negb]; destruct (prinz _) as [[T e]| | |]; cbn [rbind]; try discriminate;
       intros [= <-]; reflexivity.
   - exfalso. apply (prior_kind_not_mat (a_kind C) p Hk). exact K1.
-  - destruct eq; cbn [negb]; destruct (prinz _) as [[T e]| |]; cbn [rbind]; try discriminate;
+  - destruct eq; cbn [negb]; destruct (prinz _) as [[T e]| | |]; cbn [rbind]; try discriminate;
       intros [= <-]; reflexivity.
 Qed.
 
@@ -324,31 +324,127 @@ Qed.
 (* 1e-8 as the double the code compares with *)
 Definition atol8 : Q := Qmake 3022314549036573 302231454903657293676544.
 
+(* the dense solver's answer on T.toarray(), as eq_probs hands it on (a dense matrix never reaches ARPACK:
+   a no-convergence answer there is outside what the code can meet) *)
+Definition dense_ans (eig : arr -> eig_ans) (T : arr) : res (list Q) :=
+  match eig (a_toarray T) with EigVec v => Ok v | _ => Err end.
+
+Lemma eig_of_toarray eig T :
+  eig_of eig (a_toarray T) = match eig (a_toarray T) with EigVec v => Ok (tt, v) | _ => Err end.
+Proof. unfold eig_of. destruct (eig (a_toarray T)); reflexivity. Qed.
+
+(* eq_probs as written, case by case.  Sparse T: ARPACK's vector if it passes |pi T - pi| <= 1e-8, the dense
+   solver's answer if it does not pass OR if ARPACK gave up (ArpackNoConvergence); any other failure of
+   the solver is raised.  Dense T: the solver's answer, no guard, no handler. *)
+Theorem gen_eq_probs_spec eig T :
+  gen_eq_probs eig T =
+  if is_sparse T then
+    match eig T with
+    | EigVec v => if v_allclose2 atol8 (v_matmul v T) v then Ok v else dense_ans eig T
+    | EigNoConv => dense_ans eig T
+    | EigFail => Err
+    end
+  else match eig T with EigVec v => Ok v | _ => Err end.
+Proof.
+  unfold gen_eq_probs, dense_ans. rewrite !eig_of_toarray. unfold eig_of. fold atol8.
+  destruct (is_sparse T) eqn:Sp; destruct (eig T) as [v| |]; cbn [try_noconv rbind andb]; try reflexivity.
+  - destruct (v_allclose2 atol8 (v_matmul v T) v); cbn [negb rbind]; [reflexivity|].
+    destruct (eig (a_toarray T)); reflexivity.
+  - destruct (eig (a_toarray T)) as [w| |]; cbn [rbind]; try reflexivity.
+    destruct (v_allclose2 atol8 (v_matmul w T) w); reflexivity.
+Qed.
+
+(* ARPACK gives up on a sparse T (repo fix: try / except ArpackNoConvergence): the dense solver's vector *)
+Theorem gen_eq_probs_noconv eig T :
+  is_sparse T = true -> eig T = EigNoConv -> gen_eq_probs eig T = dense_ans eig T.
+Proof. intros Sp E. rewrite gen_eq_probs_spec, Sp, E. reflexivity. Qed.
+
+(* ARPACK returns a vector that is not stationary (repo fix fba1408): the dense solver's vector *)
+Theorem gen_eq_probs_nonstationary eig T v :
+  is_sparse T = true -> eig T = EigVec v -> v_allclose2 atol8 (v_matmul v T) v = false ->
+  gen_eq_probs eig T = dense_ans eig T.
+Proof. intros Sp E Cl. rewrite gen_eq_probs_spec, Sp, E, Cl. reflexivity. Qed.
+
+(* ARPACK returns a vector that passes the test: that vector *)
+Theorem gen_eq_probs_stationary eig T v :
+  is_sparse T = true -> eig T = EigVec v -> v_allclose2 atol8 (v_matmul v T) v = true ->
+  gen_eq_probs eig T = Ok v.
+Proof. intros Sp E Cl. rewrite gen_eq_probs_spec, Sp, E, Cl. reflexivity. Qed.
+
+(* for a dense T neither the handler nor the guard does anything *)
+Theorem gen_eq_probs_dense eig T :
+  is_sparse T = false -> gen_eq_probs eig T = match eig T with EigVec v => Ok v | _ => Err end.
+Proof. intros Sp. rewrite gen_eq_probs_spec, Sp. reflexivity. Qed.
+
+(* the handler catches ArpackNoConvergence only: any other failure of the solver is raised *)
+Theorem gen_eq_probs_fail eig T : eig T = EigFail -> gen_eq_probs eig T = Err.
+Proof. intros E. rewrite gen_eq_probs_spec, E. destruct (is_sparse T); reflexivity. Qed.
+
+(* ArpackNoConvergence never leaves eq_probs *)
+Theorem gen_eq_probs_never_noconv eig T : gen_eq_probs eig T <> NoConv.
+Proof.
+  rewrite gen_eq_probs_spec. unfold dense_ans.
+  destruct (is_sparse T); destruct (eig T) as [v| |]; try discriminate.
+  - destruct (v_allclose2 atol8 (v_matmul v T) v); [discriminate|].
+    destruct (eig (a_toarray T)); discriminate.
+  - destruct (eig (a_toarray T)); discriminate.
+Qed.
+
+(* eq_probs returns populations for a sparse T whenever the dense solver has an answer for T.toarray()
+   and ARPACK either answers or gives up *)
+Theorem gen_eq_probs_returns eig T w :
+  is_sparse T = true -> eig (a_toarray T) = EigVec w -> eig T <> EigFail ->
+  exists pi, gen_eq_probs eig T = Ok pi.
+Proof.
+  intros Sp Ed Nf. rewrite gen_eq_probs_spec, Sp. unfold dense_ans. rewrite Ed.
+  destruct (eig T) as [v| |].
+  - destruct (v_allclose2 atol8 (v_matmul v T) v); eexists; reflexivity.
+  - eexists; reflexivity.
+  - contradiction.
+Qed.
+
 (* whatever the solver returns for a sparse T (ARPACK), eq_probs hands on a vector that passed the
    stationarity test |pi T - pi| <= 1e-8, or else the dense solver's (LAPACK's) answer *)
 Theorem gen_eq_probs_guard eig T pi :
   gen_eq_probs eig T = Ok pi ->
+  (is_sparse T = false /\ eig T = EigVec pi) \/
+  (is_sparse T = true /\ eig T = EigVec pi /\ v_allclose2 atol8 (v_matmul pi T) pi = true) \/
+  (is_sparse T = true /\ eig (a_toarray T) = EigVec pi).
+Proof.
+  rewrite gen_eq_probs_spec. unfold dense_ans.
+  destruct (is_sparse T); destruct (eig T) as [v| |] eqn:E1; try discriminate.
+  - destruct (v_allclose2 atol8 (v_matmul v T) v) eqn:Cl.
+    + intros [= <-]. right. left. auto.
+    + destruct (eig (a_toarray T)) as [v2| |]; try discriminate.
+      intros [= <-]. right. right. auto.
+  - destruct (eig (a_toarray T)) as [v2| |]; try discriminate.
+    intros [= <-]. right. right. auto.
+  - intros [= <-]. left. auto.
+Qed.
+
+(* the same for a solver that never answers "no convergence" (the statement before the
+   ArpackNoConvergence handler existed) *)
+Corollary gen_eq_probs_guard_total (eig : arr -> option (list Q)) T pi :
+  gen_eq_probs (fun A => ans_of_opt (eig A)) T = Ok pi ->
   (is_sparse T = false /\ eig T = Some pi) \/
   (is_sparse T = true /\ eig T = Some pi /\ v_allclose2 atol8 (v_matmul pi T) pi = true) \/
   (is_sparse T = true /\ eig (a_toarray T) = Some pi).
 Proof.
-  unfold gen_eq_probs, eig_of. destruct (eig T) as [v|] eqn:E1; cbn [rbind]; [|discriminate].
-  destruct (is_sparse T); cbn [andb].
-  - fold atol8. destruct (v_allclose2 atol8 (v_matmul v T) v) eqn:Cl; cbn [negb rbind].
-    + intros [= <-]. right. left. auto.
-    + destruct (eig (a_toarray T)) as [v2|]; cbn [rbind]; [|discriminate].
-      intros [= <-]. right. right. auto.
-  - cbn [rbind]. intros [= <-]. left. auto.
+  intros H. apply gen_eq_probs_guard in H. cbv beta in H.
+  assert (I : forall o v, ans_of_opt o = EigVec v -> o = Some v).
+  { intros [x|] v; cbn; [intros [= <-]; reflexivity|discriminate]. }
+  destruct H as [[Hs E]|[[Hs [E Cl]]|[Hs E]]]; [left|right; left|right; right]; auto.
 Qed.
 
 (* with an exact solver in both places the guard changes nothing: eq_probs is the stationary vector *)
-Definition exact_eig (T : arr) : option (list Q) := stationary (a_val T).
+Definition exact_eig (T : arr) : eig_ans := ans_of_opt (stationary (a_val T)).
 
 Theorem gen_eq_probs_exact T : gen_eq_probs exact_eig T = exact_eqp T.
 Proof.
-  unfold gen_eq_probs, eig_of, exact_eig, exact_eqp, a_toarray. cbn [a_val].
-  destruct (stationary (a_val T)) as [v|]; cbn [rbind of_opt]; [|reflexivity].
-  destruct (andb _ _); reflexivity.
+  rewrite gen_eq_probs_spec. unfold dense_ans, exact_eig, exact_eqp, a_toarray. cbn [a_val].
+  destruct (stationary (a_val T)) as [v|]; cbn [ans_of_opt of_opt].
+  - destruct (is_sparse T); [|reflexivity]. destruct (v_allclose2 _ _ _); reflexivity.
+  - destruct (is_sparse T); reflexivity.
 Qed.
 
 Theorem gen_normalize_full_eq C p eq :
@@ -378,7 +474,7 @@ Qed.
 (* if the dense solver is exact, eq_probs' answer for a sparse T is stationary to 1e-8 per entry
    whatever ARPACK returned *)
 Theorem gen_eq_probs_sound eig T pi :
-  (forall D v, is_sparse D = false -> eig D = Some v -> is_stationary_b (a_val D) v = true) ->
+  (forall D v, is_sparse D = false -> eig D = EigVec v -> is_stationary_b (a_val D) v = true) ->
   gen_eq_probs eig T = Ok pi ->
   v_allclose2 atol8 (v_matmul pi T) pi = true.
 Proof.
@@ -417,13 +513,62 @@ Qed.
 (* normalize as written, with the eigen-solvers abstract: the populations pass |pi T - pi| <= 1e-8
    whatever the sparse solver returned, provided the dense one returns stationary vectors *)
 Theorem gen_normalize_pi_sound eig C p C' T pi :
-  (forall D v, is_sparse D = false -> eig D = Some v -> is_stationary_b (a_val D) v = true) ->
+  (forall D v, is_sparse D = false -> eig D = EigVec v -> is_stationary_b (a_val D) v = true) ->
   gen_normalize (gen_eq_probs eig) C p true = Ok (C', T, Some pi) ->
   v_allclose2 atol8 (v_matmul pi T) pi = true.
 Proof.
   intros Hd. unfold gen_normalize.
-  destruct (gen_apply_prior_counts C p) as [C1| |]; cbn [rbind]; try discriminate.
+  destruct (gen_apply_prior_counts C p) as [C1| | |]; cbn [rbind]; try discriminate.
   rewrite gen_row_normalize_eq. cbn [rbind].
-  destruct (gen_eq_probs eig _) as [v| |] eqn:E; cbn [rbind]; try discriminate.
+  destruct (gen_eq_probs eig _) as [v| | |] eqn:E; cbn [rbind]; try discriminate.
   intros [= _ <- <-]. exact (gen_eq_probs_sound eig _ _ Hd E).
+Qed.
+
+(* ------------------------------------------------------------------ ArpackNoConvergence does not leave normalize *)
+Lemma a_add_never_noconv A B : a_add A B <> NoConv.
+Proof. unfold a_add. destruct (same_square _ _); discriminate. Qed.
+
+Lemma a_add_prior_never_noconv A p : a_add_prior A p <> NoConv.
+Proof.
+  destruct p as [|q|P]; cbn [a_add_prior]; [discriminate| |apply a_add_never_noconv].
+  destruct (_ && _); discriminate.
+Qed.
+
+Lemma gen_apply_prior_never_noconv C p : gen_apply_prior_counts C p <> NoConv.
+Proof.
+  unfold gen_apply_prior_counts. destruct (negb (prior_is_none p)); cbn [rbind]; [|discriminate].
+  pose proof (a_add_prior_never_noconv C p) as H1.
+  pose proof (a_add_prior_never_noconv (a_np_array (a_todense C)) p) as H2.
+  destruct (a_add_prior C p) as [v| | |]; cbn [try_notimpl rbind]; try discriminate; try contradiction.
+  - destruct (is_npmatrix v); discriminate.
+  - destruct (a_add_prior (a_np_array (a_todense C)) p) as [v| | |]; cbn [rbind]; try discriminate; try contradiction.
+    destruct (is_npmatrix v); discriminate.
+Qed.
+
+Theorem gen_normalize_never_noconv eig C p eq : gen_normalize (gen_eq_probs eig) C p eq <> NoConv.
+Proof.
+  unfold gen_normalize. pose proof (gen_apply_prior_never_noconv C p) as H1.
+  destruct (gen_apply_prior_counts C p) as [C1| | |]; cbn [rbind]; try discriminate; try contradiction.
+  rewrite gen_row_normalize_eq. cbn [rbind]. destruct eq; cbn [rbind]; [|discriminate].
+  pose proof (gen_eq_probs_never_noconv eig (mkarr (rownorm_kind (a_kind C1)) (row_normalize (a_val C1)))) as H2.
+  destruct (gen_eq_probs eig _) as [v| | |]; cbn [rbind]; try discriminate. contradiction.
+Qed.
+
+(* normalize as written returns a model with populations whenever the dense solver has an answer for the
+   probabilities and the sparse solver either answers or gives up (ArpackNoConvergence) *)
+Theorem gen_normalize_returns eig C p C1 w :
+  is_square (a_val C) = true -> a_kind C <> KMat ->
+  apply_prior (a_val C) p = Some C1 ->
+  let T := mkarr (rownorm_kind (prior_kind (a_kind C) p)) (row_normalize C1) in
+  eig (a_toarray T) = EigVec w -> eig T <> EigFail ->
+  exists pi, gen_normalize (gen_eq_probs eig) C p true = Ok (mkarr (prior_kind (a_kind C) p) C1, T, Some pi).
+Proof.
+  intros Sq Hk Ap T Ed Nf. unfold gen_normalize. rewrite (gen_apply_prior_eq C p Sq Hk), Ap.
+  cbn [rbind]. rewrite gen_row_normalize_eq. cbn [rbind a_val a_kind]. fold T.
+  destruct (is_sparse T) eqn:Sp.
+  - destruct (gen_eq_probs_returns eig T w Sp Ed Nf) as [pi E]. exists pi. rewrite E. reflexivity.
+  - assert (TT : a_toarray T = T).
+    { unfold T, a_toarray, is_sparse in *. cbn [a_kind a_val] in *.
+      destruct (prior_kind (a_kind C) p); cbn [rownorm_kind] in *; try reflexivity. discriminate. }
+    exists w. rewrite (gen_eq_probs_dense eig T Sp). rewrite TT in Ed. rewrite Ed. reflexivity.
 Qed.
